@@ -21,6 +21,15 @@ pub fn run(ctx: &mut Ctx) {
             crate::c02::case(ctx, &cfg, &data, kind, sink, tiny, seed, "rt,mode,header");
         } }
     }
+    // run-length matching around the points where dictionary indices wrap (multiples of 32 KiB)
+    for _ in 0..(24 * ctx.scale) {
+        let len = ctx.rng.range(66000, 110000);
+        let data = plain::gen(&mut ctx.rng, "wrap_runs", len);
+        let cfg = if ctx.rng.chance(1, 2) { Cfg { level: ctx.rng.range(1, 10) as u8, strategy: 3, zlib: ctx.rng.chance(1, 2), wb: 15 } }
+                  else { Cfg { level: ctx.rng.range(1, 10) as u8, strategy: *ctx.rng.pick(&[0u8, 1, 3, 4]), zlib: ctx.rng.chance(1, 2), wb: ctx.rng.range(8, 11) as u8 } };
+        let seed = ctx.rng.next();
+        crate::c02::case(ctx, &cfg, &data, "wrap_runs", Sink::Buf, false, seed, "rt,mode,header");
+    }
     // redundancy is exploited: x ++ x compresses to well under its own size (checked, not proved)
     let n_ratio = 40 * ctx.scale;
     for _ in 0..n_ratio {
